@@ -14,8 +14,24 @@ func init() { families["hostile"] = famHostile }
 
 var boundaryBytes = []byte{0, 1, 2, 3, 4, 5, 9, 0x7f, 0x80, 0xfe, 0xff}
 
+// hostileBoundedTTL: the generators avoid time-to-live values beyond a few seconds (set in
+// runs where the hostile connections stay open while quiescence is judged).
+var hostileBoundedTTL bool
+
+func csumLen(t byte) int {
+	if t == wire.CsumNone {
+		return 0
+	}
+	return 4
+}
+
 // hostileFrame builds one frame (or non-frame) of hostile input. desc says what it is.
 func hostileFrame(c *RawConn, inflight []uint32, service string) (out []byte, desc string) {
+	if len(c.Queue) > 0 {
+		out, desc = c.Queue[0], c.QueueDesc[0]
+		c.Queue, c.QueueDesc = c.Queue[1:], c.QueueDesc[1:]
+		return out, desc
+	}
 	id := c.ID()
 	pickID := func() uint32 {
 		switch scn(4) {
@@ -40,7 +56,17 @@ func hostileFrame(c *RawConn, inflight []uint32, service string) (out []byte, de
 		frs := wire.EncCall(spec)
 		return frs[0]
 	}
-	switch k := scn(20); k {
+	switch k := scn(22); k {
+	case 20, 21:
+		// a call req that ENDS right after the method name (no arg2, no arg3, no more
+		// fragments): only noticed when the reader closes arg1
+		f := validReq(false, wire.CsumNone)
+		fr, _ := wire.Decode(append([]byte(nil), f...))
+		n := fr.ArgOff + 2 + int(binary.BigEndian.Uint16(f[fr.ArgOff:]))
+		f = append([]byte(nil), f[:n]...)
+		f[wire.HeaderSize] = 0
+		binary.BigEndian.PutUint16(f, uint16(len(f)))
+		return f, "call req that ends right after the method name"
 	case 0:
 		n := 1 + scn(200)
 		b := make([]byte, n)
@@ -78,6 +104,9 @@ func hostileFrame(c *RawConn, inflight []uint32, service string) (out []byte, de
 		// one byte of the fixed part set to a boundary value
 		f := validReq(scnChance(1, 2), byte(scn(4)))
 		pos := wire.HeaderSize + scn(min(len(f)-wire.HeaderSize, 60))
+		if hostileBoundedTTL && pos >= wire.HeaderSize+1 && pos <= wire.HeaderSize+4 {
+			pos = wire.HeaderSize + 5 // (not the ttl)
+		}
 		v := boundaryBytes[scn(len(boundaryBytes))]
 		f[pos] = v
 		return f, fmt.Sprintf("call req byte %d := %#x", pos, v)
@@ -153,7 +182,11 @@ func hostileFrame(c *RawConn, inflight []uint32, service string) (out []byte, de
 			f[wire.HeaderSize+1+4+25] = 255
 			return f, "call req with service length 255"
 		default:
-			binary.BigEndian.PutUint32(f[wire.HeaderSize+1:], []uint32{0, 0xffffffff}[scn(2)])
+			lim := []uint32{0, 0xffffffff}[scn(2)]
+			if hostileBoundedTTL {
+				lim = 0
+			}
+			binary.BigEndian.PutUint32(f[wire.HeaderSize+1:], lim)
 			return f, "call req with ttl at a limit"
 		}
 	case 16, 17:
@@ -178,7 +211,44 @@ func hostileFrame(c *RawConn, inflight []uint32, service string) (out []byte, de
 		full := wire.EncCall(spec)[0]
 		fr, _ := wire.Decode(append([]byte(nil), full...))
 		spec.MaxFrame = fr.ArgOff + 2 + 1 + scn(30)
-		return wire.EncCall(spec)[0], "first fragment of a call whose method name continues in the next fragment"
+		frs := wire.EncCall(spec)
+		if len(frs) > 1 && scnChance(2, 3) {
+			// ... and the second fragment does come: whole, or damaged in a way only the
+			// fragment reader notices (the call is then neither started nor cleaned up by
+			// the paths that handle a bad FIRST fragment)
+			cont := append([]byte(nil), frs[1]...)
+			what := "the continuation, intact"
+			switch scn(5) {
+			case 0: // chunk length beyond the frame
+				binary.BigEndian.PutUint16(cont[wire.HeaderSize+2+csumLen(spec.CsumType):], 0xfff0)
+				what = "the continuation with a chunk length beyond the frame"
+			case 1: // checksum off (only with a checksum)
+				if spec.CsumType != wire.CsumNone {
+					cont[wire.HeaderSize+2] ^= 0x55
+					what = "the continuation with a wrong checksum"
+				}
+			case 2: // no chunk at all
+				cont = cont[:wire.HeaderSize+2+csumLen(spec.CsumType)]
+				binary.BigEndian.PutUint16(cont, uint16(len(cont)))
+				what = "the continuation without any chunk"
+			case 3: // the message ends with the method name: nothing after arg1, no more fragments
+				n := wire.HeaderSize + 2 + csumLen(spec.CsumType)
+				n += 2 + int(binary.BigEndian.Uint16(cont[n:]))
+				if spec.CsumType == wire.CsumNone && n <= len(cont) {
+					cont = cont[:n]
+					cont[wire.HeaderSize] = 0
+					binary.BigEndian.PutUint16(cont, uint16(len(cont)))
+					what = "the continuation ending the message right after the method name"
+				}
+			}
+			c.Queue = append(c.Queue, cont)
+			c.QueueDesc = append(c.QueueDesc, what)
+			for _, rest := range frs[2:] {
+				c.Queue = append(c.Queue, rest)
+				c.QueueDesc = append(c.QueueDesc, "a further fragment of that call")
+			}
+		}
+		return frs[0], "first fragment of a call whose method name continues in the next fragment"
 	case 14:
 		// a complete, valid small call (keeps legitimate state around the hostile frames)
 		return validReq(false, []byte{wire.CsumNone, wire.CsumCRC32, wire.CsumCRC32C}[scn(3)]), "valid call req"
@@ -211,7 +281,13 @@ func famHostile(w *World) {
 		target = rn
 	}
 	cli := w.addNode(NodeOpts{Name: "c0", Service: "client0", Host: "10.0.3.1", Conn: w.connOptsBig()})
-	w.describe("hostile relay=%v", withRelay)
+	// lingering: the hostile clients keep their connections open and start only calls with a
+	// time-to-live of seconds; once those have run out the server must hold nothing for
+	// them although the connections are still there (a call whose request could not be read
+	// has failed like any other)
+	linger := scnChance(1, 4)
+	hostileBoundedTTL = linger
+	w.describe("hostile relay=%v linger=%v", withRelay, linger)
 
 	legit := func(tag string) *CallRec {
 		r := w.newCall(CallSpec{Tag: tag, From: cli, To: target.HostPort, Service: srv.Service, Via: "legit", Timeout: 5 * time.Second, Pad2: scn(500), Len3: scn(80000), Rs2: -1, Rs3: -1})
@@ -278,7 +354,7 @@ func famHostile(w *World) {
 					break
 				}
 			}
-			if scnChance(2, 3) {
+			if scnChance(2, 3) && !linger {
 				c.c.Close()
 			}
 		})
@@ -388,6 +464,21 @@ func famHostile(w *World) {
 	// a directly connected server), and what it started through a relay is
 	// bounded by the relay's maximum timeout (2m by default) plus the tombstone
 	// period
+	if linger {
+		w.QuiesceStarted = true
+		w.stopLags()
+		for _, l := range w.Net.Links {
+			l.Heal()
+		}
+		if withRelay {
+			w.settle(3 * time.Minute)
+		} else {
+			w.settle(15 * time.Second)
+		}
+		w.event("quiesce", "with the hostile clients still connected")
+		w.probe("hostile.quiescence-judged-with-hostile-clients-connected")
+		w.checkQuiescent()
+	}
 	for _, rp := range w.RawPeers {
 		if rp.L == nil {
 			rp.CloseAll()
@@ -398,6 +489,7 @@ func famHostile(w *World) {
 		// client with a bounded ttl, so whatever it answered (or not), the relay must have
 		// forgotten those calls by now without the connection going away
 		w.QuiesceStarted = true
+		w.stopLags()
 		for _, l := range w.Net.Links {
 			l.Heal()
 		}
